@@ -28,6 +28,12 @@ def _smt2(assumptions, goal):
 ABS_MS = int(os.environ.get("PYVC_ABS_MS", "8000"))
 
 
+def _has_q(f):
+    from .core import _has_quantifier
+
+    return _has_quantifier(f)
+
+
 def solve(assumptions, goal, want_model=True, z3_ms=None, use_cvc5=True):
     """Abstraction first (sound for `proved`), then the precise back ends."""
     from .abstraction import abstract_query
@@ -37,6 +43,19 @@ def solve(assumptions, goal, want_model=True, z3_ms=None, use_cvc5=True):
     q = abstract_query(assumptions, goal) if os.environ.get("PYVC_NO_ABS") is None else None
     if q is not None:
         na, ng, exact = q
+        # 1. E-matching only (no model-based quantifier instantiation): the Boogie/Dafny style
+        #    of discharging VCs; sound for unsat, fast when it works
+        if any(_has_q(a) for a in na) or _has_q(ng):
+            s0 = z3.Solver()
+            s0.set("timeout", ABS_MS)
+            s0.set("random_seed", SEED)
+            s0.set("smt.mbqi", False)
+            s0.set("smt.auto_config", False)
+            for a in na:
+                s0.add(a)
+            s0.add(z3.Not(ng))
+            if s0.check() == z3.unsat:
+                return {"status": "proved", "backend": "z3-" + z3.get_version_string() + "/strU/ematching", "seconds": time.time() - t0}
         s = z3.Solver()
         s.set("timeout", ABS_MS)
         s.set("random_seed", SEED)
